@@ -84,6 +84,8 @@ def parse_prints(prints, out=""):
             if "attrs" in c["src"]:
                 c["src"]["attrs"] = _rec(p[1]["src"]["attrs"])
             c["id"] = "%s:%s:%s" % (c["mesh"], c["route"], ",".join("%s=%s" % kv for kv in sorted(c["d"].items())))
+            if c.get("first", "conn") != "conn":
+                c["id"] += "|first=" + c["first"]
             cases.append(c)
     cases.sort(key=lambda c: c["id"])
     return meshes, cases
@@ -647,16 +649,58 @@ def _range_ok(a, lo, hi):
     return bool(np.all(np.isfinite(a)) and a.min() >= lo and a.max() <= hi) if a.size else True
 
 
-def project(g, case, mesh):
-    got = {"n_face": int(g.n_face), "n_node": int(g.n_node)}
-    dt, fl = {}, {}
-    rows, dt["face_node"], fl["face_node"] = hux.table(g.face_node_connectivity)
-    got["tbl"] = rows
-    nlon, nlat = g.node_lon.values, g.node_lat.values
+def read_in_order(g, order):
+    """Read the Grid's attributes in the order the plan prescribes; values are taken when read."""
+    seen = {}
+    for a in order:
+        if a == "conn":
+            seen["conn"] = (int(g.n_face), int(g.n_node), hux.table(g.face_node_connectivity))
+        elif a == "lon":
+            seen["lon"] = np.array(g.node_lon.values, dtype=float)
+        elif a == "lat":
+            seen["lat"] = np.array(g.node_lat.values, dtype=float)
+        elif a == "xyz":
+            seen["xyz"] = np.stack([np.array(g.node_x.values, dtype=float), np.array(g.node_y.values, dtype=float),
+                                    np.array(g.node_z.values, dtype=float)], axis=1)
+    return seen
+
+
+def xyz_ids(xyz, dirs, tol):
+    """Lattice id of every Cartesian node position, as a direction (the property does not fix the radius)."""
+    n = np.linalg.norm(xyz, axis=1)
+    ok = np.isfinite(n) & (n > 0)
+    u = np.where(ok[:, None], xyz / np.where(ok, n, 1.0)[:, None], 0.0)
+    lat = np.degrees(np.arcsin(np.clip(u[:, 2], -1.0, 1.0)))
+    lon = np.degrees(np.arctan2(u[:, 1], u[:, 0]))
+    ids = nearest_ids(np.where(ok, lon, np.nan), np.where(ok, lat, np.nan), dirs, tol)
+    # arcsin loses precision near the poles: decide there on the Cartesian chord directly
+    U = np.array([lattice.unit(v) for v in dirs], dtype=float)
+    for k in range(len(ids)):
+        if ids[k] == -2 and ok[k]:
+            b = int(np.argmax(U @ u[k]))
+            if np.linalg.norm(u[k] - U[b]) <= 2.0 * math.sin(max(tol, 1e-8) / 2.0):
+                ids[k] = b
+    return ids
+
+
+def project_core(g, case, mesh, order):
+    seen = read_in_order(g, order)
+    n_face, n_node, (rows, d_ok, f_ok) = seen["conn"]
     tol = case_tol(case)
-    got["node_pos"] = nearest_ids(nlon, nlat, mesh["nodes"], tol)
-    lon_ok = _range_ok(nlon, -180.0, 180.0)
-    lat_ok = _range_ok(nlat, -90.0, 90.0)
+    got = {"n_face": n_face, "n_node": n_node, "tbl": rows, "order": list(order)}
+    got["node_pos"] = nearest_ids(seen["lon"], seen["lat"], mesh["nodes"], tol)
+    got["xyz_pos"] = xyz_ids(seen["xyz"], mesh["nodes"], tol)
+    got["lon_ok"] = _range_ok(seen["lon"], -180.0, 180.0)
+    got["lat_ok"] = _range_ok(seen["lat"], -90.0, 90.0)
+    return got, seen, d_ok, f_ok
+
+
+def project(g, case, mesh, order=("conn", "lon", "lat", "xyz")):
+    got, seen, d_ok, f_ok = project_core(g, case, mesh, order)
+    dt, fl = {"face_node": d_ok}, {"face_node": f_ok}
+    nlon, nlat = seen["lon"], seen["lat"]
+    tol = case_tol(case)
+    lon_ok, lat_ok = got["lon_ok"], got["lat_ok"]
     car = case["carried"]
     if "centres" in car:
         if "face_lon" in g._ds and "face_lat" in g._ds:
@@ -718,18 +762,16 @@ def run_case(arg):
         plan = case["plan"]
         g, how = decode(plan[0])
         rec["how"] = how
-        rec["got"] = project(g, case, mesh)
+        orders = case.get("orders") or [["conn", "lon", "lat", "xyz"]] * len(plan)
+        rec["got"] = project(g, case, mesh, orders[0])
         kept, later = [], []
         if fp0 is not None:
             kept.append(fingerprint(inp) == fp0)
         # Decode ; Decode ... over the SAME input object (a file on disk: the same path)
-        for opt in plan[1:]:
+        for step, opt in enumerate(plan[1:], start=1):
             try:
                 g2, _ = decode(opt)
-                nlon, nlat = g2.node_lon.values, g2.node_lat.values
-                rows, _, _ = hux.table(g2.face_node_connectivity)
-                later.append({"n_face": int(g2.n_face), "n_node": int(g2.n_node), "tbl": rows,
-                              "node_pos": nearest_ids(nlon, nlat, mesh["nodes"], case_tol(case))})
+                later.append(project_core(g2, case, mesh, orders[step])[0])
             except Exception as e:
                 rec["error_later"] = "decoding #%d (%s) of the same input: %s: %s%s" % (len(later) + 2, opt, type(e).__name__, str(e)[:140], _where(e))
                 break
